@@ -170,9 +170,11 @@ add_binfunc!(add_int_pow, pow, X_INT, Int, X_INT, |a: &LazyBigint,
         )?)
     } else {
         rt.can_allocate_by(|| {
-            b.to_usize()
-                .zip(a.bits().to_usize())
-                .map(|(b, a_bits)| (a_bits / 8).saturating_mul(b))
+            match b.to_usize().zip(a.bits().to_usize()) {
+                Some((b, a_bits)) => Some((a_bits / 8).saturating_mul(b)),
+                // an exponent beyond usize leaves a result that fits anywhere only for the bases -1, 0 and 1
+                None => if a.abs() <= LazyBigint::one() { None } else { Some(usize::MAX) },
+            }
         })?;
         Ok(XValue::Int(a.clone().pow(b.clone())))
     }
